@@ -27,7 +27,7 @@ def comps(x: Any) -> list[Any]:
 def rand_stokes(rng: Any, cls: Any, shape: tuple[int, ...], dt: Any, positive: bool = False) -> Any:
     arrs = []
     for _ in cls.stokes:
-        v = rng.integers(1 if positive else -6, 7, size=shape) / 2
+        v = rng.integers(1 if positive else -6, 7, size=shape) / (1 if np.dtype(dt).kind == 'i' else 2)
         v = np.where(v == 0, 1.5, v)
         arrs.append(jnp.asarray(v, dtype=dt))
     return cls(*arrs)
@@ -41,8 +41,10 @@ def case_arith(rng: Any, ctx: Ctx, index: int) -> None:
     kind = gen.pick(rng, sorted(KINDS))
     cls = KINDS[kind]
     shape = gen.pick(rng, [(3,), (2, 3), (1,), (2, 1, 2)])
-    dt = np.dtype(gen.pick(rng, dtypes(ctx)))
+    dt = np.dtype(gen.pick(rng, dtypes(ctx) + [np.int32]))      # integer-valued components too
     opname = gen.pick(rng, sorted(OPS))
+    if dt.kind == 'i' and opname == 'pow':
+        opname = 'mul'
     op = OPS[opname]
     s = rand_stokes(rng, cls, shape, dt, positive=opname == 'pow')
     okind = gen.pick(rng, ['pyint', 'pyfloat', 'npscalar', 'jnpscalar', 'array0d', 'array1d', 'arrayfull', 'same-kind', 'same-kind-otherdtype'])
@@ -94,7 +96,7 @@ def case_arith(rng: Any, ctx: Ctx, index: int) -> None:
             if g.shape != ref.shape or g.dtype != ref.dtype:
                 LOG.violation('C20', mon, f'{where}/shape-dtype', f'component {name}: {g.dtype}{g.shape} vs {ref.dtype}{ref.shape}', kind=kind)
                 return
-            tol = {2: 2e-2, 4: 1e-5, 8: 1e-12}[np.dtype(g.dtype).itemsize]
+            tol = {2: 2e-2, 4: 1e-5, 8: 1e-12}[np.dtype(g.dtype).itemsize] if np.dtype(g.dtype).kind == 'f' else 0
             if not np.allclose(np.asarray(g, np.float64), ref64, rtol=tol, atol=tol):
                 LOG.violation('C20', mon, f'{where}/values', f'component {name} differs from the component-wise NumPy result', kind=kind,
                               got=np.asarray(g).tolist(), expected=ref64.tolist())
@@ -266,7 +268,11 @@ def case_factories(rng: Any, ctx: Ctx, index: int) -> None:
                 args = [jax.ShapeDtypeStruct(shape, d) for d in dts]
             else:
                 args = [jnp.asarray(rng.integers(-3, 4, size=shape), dtype=d) for d in dts]
-            x = StokesPyTree.from_stokes(**{c: a for c, a in zip(kind, args)}) if what == 'from_stokes-kw' else StokesPyTree.from_stokes(*args)
+            if what == 'from_stokes-kw':
+                order = [int(i) for i in rng.permutation(len(kind))]        # keywords in any order
+                x = StokesPyTree.from_stokes(**{kind[i]: args[i] for i in order})
+            else:
+                x = StokesPyTree.from_stokes(*args)
             if chk(x, prom) and what != 'from_stokes-struct':
                 for name, c, a in zip(kind, comps(x), args):
                     if not np.array_equal(np.asarray(c, np.float64), np.asarray(a, np.float64)):
